@@ -52,9 +52,26 @@ pub fn run(ctx: &mut Ctx, replay: Option<&str>) {
         ctx.evaluations += 1;
         let issue_res = issue(&f.issue);
         ctx.impl_calls += 1;
+        // every third flow presents from a holder instance that has already produced another presentation: one with a
+        // key-binding JWT when a holder key is bound (it must not leak into a later call that requests none), else select-all
+        let reuse = ctx.evaluations % 3 == 0;
         let hold = issue_res.out.ok().map(|s| {
             ctx.impl_calls += 1;
-            holder_session(s, f.issue.fmt, &[f.present_args()])
+            if reuse {
+                let warm_sel = select_all(&f.issue.claims).as_object().cloned().unwrap_or_default();
+                let warmup = match f.issue.holder {
+                    Some(k) => PresentArgs { sel: warm_sel, nonce: Some("warm-up-nonce".into()), aud: Some("https://other-verifier.example".into()), key: Some(k), alg: Some(k.alg().to_string()) },
+                    None => PresentArgs::plain(warm_sel),
+                };
+                let mut h = holder_session(s, f.issue.fmt, &[warmup, f.present_args()]);
+                if h.calls.len() == 2 {
+                    h.calls.remove(0);
+                    ctx.count("holder.reused_instance");
+                }
+                h
+            } else {
+                holder_session(s, f.issue.fmt, &[f.present_args()])
+            }
         });
         let i = reqs.len();
         reqs.push(spec_select_request(i, &f.issue.claims, &f.issue.strategy, &Value::Object(f.sel.clone())));
